@@ -9,6 +9,8 @@ import (
 	"sort"
 	"strings"
 
+	"golang.org/x/tools/go/ssa"
+
 	"verif/checker/core"
 )
 
@@ -160,5 +162,76 @@ func runResetEq(c *core.Ctx) []core.Obligation {
 			obs = append(obs, core.Ob("R-RESETEQ", construct, c.Pos(reset.Pos()), reset.FullName(), core.Discharged, fmt.Sprintf("%d constant fields of a new value are restored by %s()", len(want), rp.reset)))
 		}
 	}
+	obs = append(obs, cutoffAdvance(c))
 	return obs
+}
+
+
+// cutoffAdvance (after round-6 seed C11-r6m1, `nodeCutoff = nextNodeCutoff` moved from Next to the top of StartUnion):
+// the contents iterator suppresses duplicates across ranges by not climbing above nodeCutoff. The cut-off may be raised
+// to the node where the previous range started only once the walk from that node has reached the old cut-off, i.e. on
+// the "already processed this node and its ancestors" branch of Next; raised anywhere else (at the start of the next
+// range, say) it hides ancestors that an abandoned walk never reported, which breaks "every pair at least once".
+func cutoffAdvance(c *core.Ctx) core.Obligation {
+	const construct = "CellIndexContentsIterator:cutoff-advances-only-when-exhausted"
+	typ := c.NamedType("s2", "CellIndexContentsIterator")
+	if typ == nil {
+		return core.Ob("R-RESETEQ", construct, "-", "", core.Violated, "unresolved anchor")
+	}
+	n, bad := 0, ""
+	for _, fn := range c.GeoFuncs() {
+		core.AllInstrs(fn, func(in ssa.Instruction) {
+			st, ok := in.(*ssa.Store)
+			if !ok {
+				return
+			}
+			fr, ok := core.AsFieldAddr(st.Addr)
+			if !ok || fr.Name != "nodeCutoff" {
+				return
+			}
+			src, ok := core.AsFieldLoad(st.Val)
+			if !ok || src.Name != "nextNodeCutoff" {
+				return
+			}
+			n++
+			// dominated by the true side of  node.parent <= nodeCutoff
+			guarded := false
+			for _, b := range fn.Blocks {
+				ifi, isIf := b.Instrs[len(b.Instrs)-1].(*ssa.If)
+				if !isIf {
+					continue
+				}
+				bo, isBo := ifi.Cond.(*ssa.BinOp)
+				if !isBo {
+					continue
+				}
+				l, okl := core.AsFieldLoad(bo.X)
+				r, okr := core.AsFieldLoad(bo.Y)
+				if !okl || !okr {
+					continue
+				}
+				side := -1
+				switch {
+				case l.Name == "parent" && r.Name == "nodeCutoff" && bo.Op == token.LEQ, l.Name == "nodeCutoff" && r.Name == "parent" && bo.Op == token.GEQ:
+					side = 0
+				case l.Name == "parent" && r.Name == "nodeCutoff" && bo.Op == token.GTR, l.Name == "nodeCutoff" && r.Name == "parent" && bo.Op == token.LSS:
+					side = 1
+				}
+				if side >= 0 && core.EdgeDominates(core.Edge{From: b, Idx: side}, st.Block()) {
+					guarded = true
+				}
+			}
+			if !guarded && bad == "" {
+				bad = core.FuncName(fn) + " at " + c.Pos(st.Pos())
+			}
+		})
+	}
+	switch {
+	case n == 0:
+		return core.Ob("R-RESETEQ", construct, "-", "", core.Violated, "the cut-off is never raised to nextNodeCutoff: duplicates are no longer suppressed as documented (or the assignment was rewritten beyond recognition)")
+	case bad != "":
+		return core.Ob("R-RESETEQ", construct, "-", "", core.Violated,
+			"nodeCutoff is raised to nextNodeCutoff in "+bad+", not on the branch of Next that has found the walk exhausted (node.parent <= nodeCutoff): when the caller abandons the contents of a range early, ancestors that were never reported fall below the new cut-off and are skipped for every later range")
+	}
+	return core.Ob("R-RESETEQ", construct, "-", "", core.Discharged, fmt.Sprintf("%d assignment(s), each on the exhausted branch of Next", n))
 }
